@@ -61,9 +61,16 @@ def table_check(ctx, rule, name, inst, oracle, enum_name, custom="Custom", domai
     try:
         it, pieces, tb = CL.classify(F, inst, input_term=input_term, domain=domain)
     except CL.Unrecognised as e:
-        ctx.fail(rule, name + ":shape", "%s is a comparison-only classifier of its argument" % name, site(inst),
-                 "UNRECOGNISED: %s" % e)
-        return None
+        # not a switch tree: a decision list over the argument, possibly through a constant lookup table
+        try:
+            if input_term is not None:
+                raise CL.Unrecognised("explicit input term")
+            it, pieces = CL.classify_by_exits(F, inst, domain)
+        except CL.Unrecognised as e2:
+            ctx.fail(rule, name + ":shape", "%s is a comparison-only classifier of its argument" % name, site(inst),
+                     "UNRECOGNISED: %s; as a decision list: %s" % (e, e2))
+            return None
+    pieces = CL.expand_tables(F, inst, it, pieces)
     got = {}
     rest = ()
     ok = True
@@ -660,7 +667,11 @@ def fb_table(ctx, inst):
         try:
             it, pieces, tb = CL.classify(F, inst, domain=((0, 255),))
         except CL.Unrecognised as e:
-            return ctx.fail("CLASSIFY", name + ":shape", "try_from is a comparison-only classifier", site(inst), "UNRECOGNISED: %s" % e)
+            try:
+                it, pieces = CL.classify_by_exits(F, inst, ((0, 255),))
+            except CL.Unrecognised as e2:
+                return ctx.fail("CLASSIFY", name + ":shape", "try_from is a comparison-only classifier", site(inst), "UNRECOGNISED: %s; as a decision list: %s" % (e, e2))
+    pieces = CL.expand_tables(F, inst, it, pieces)
     ctx.check(s(it) == ("arg", 1, "u8"), "CLASSIFY", name + ":input", "try_from classifies its u8 argument", site(inst),
               how=G.show(it), why=G.show(it))
     got, err = {}, ()
